@@ -129,7 +129,8 @@ def run_c12(tier):
                                          watchdog=150)))
     with cf.ThreadPoolExecutor(4) as tp:
         rs = list(tp.map(lambda j: runner.run(j[0], j[1], None, timeout=170,
-                                              module="vf.real.treescn"), jobs))
+                                              module="vf.real.treescn",
+                                              env_extra={"VF_IMPORT_TIME_LOCK": "1"}), jobs))
     for (part, a), r in zip(jobs, rs):
         cases += 1
         tag = f"{a['context']}:levels{a['levels']}"
@@ -143,6 +144,11 @@ def run_c12(tier):
             viol.append((f"C12:R:several-trackers:{tag}",
                          f"processes of one tree report trackers {tps}: root {res['root']} "
                          f"tree {res['tree']}", a))
+        private = [(t["depth"], t["own_trackers"]) for t in res["tree"] if t.get("own_trackers")]
+        if private or len(res["root"].get("own_trackers", [])) != 1:
+            viol.append((f"C12:R:private-tracker:{tag}",
+                         f"non-root members started their own tracker (depth, pids): {private}; "
+                         f"root owns {res['root'].get('own_trackers')}", a))
         if depths != list(range(1, a["levels"] + 2)):
             viol.append((f"C12:R:tree-shape:{tag}", f"depths {depths}", a))
         if any(v != "alive" for v in res["signals"].values()):
